@@ -58,6 +58,15 @@ Definition check_unc (c : list string * Z * option string) : bool :=
   let '(names, m, observed) := c in
   opt_eqb String.eqb (unc_segment names m) observed.
 
+(* segment_time_series(index, type, drop_zero_weight_segments) on an index that covers the local months `present`:
+   the observed row (columns that were returned) of an hour of month m *)
+Definition check_weights_on (c : string * bool * list Z * Z * list (string * Q)) : bool :=
+  let '(type, drop, present, m, observed) := c in
+  match segment_weights_on type drop present m with
+  | Some row => same_row row observed
+  | None => false
+  end.
+
 (* one case type for all streams, so that a run evaluates every comparison in a single batch of coqc processes *)
 Inductive c18case : Type :=
 | CWeights (c : string * Z * list (string * Q))
@@ -67,7 +76,8 @@ Inductive c18case : Type :=
 | COccupancy (c : list bool * list bool * list (bool * option bool * option float * list (option float) * list (option float)))
 | CPrediction (c : string * Z * option string)
 | CPredictionOn (c : list Z * list string * string * Z * option string)
-| CUnc (c : list string * Z * option string).
+| CUnc (c : list string * Z * option string)
+| CWeightsOn (c : string * bool * list Z * Z * list (string * Q)).
 
 Definition check_any (c : c18case) : bool :=
   match c with
@@ -79,4 +89,5 @@ Definition check_any (c : c18case) : bool :=
   | CPrediction x => check_prediction x
   | CPredictionOn x => check_prediction_on x
   | CUnc x => check_unc x
+  | CWeightsOn x => check_weights_on x
   end.
